@@ -53,9 +53,19 @@ func c05load(g *Gen, i int, path string, files map[string]string, names []string
 		ud := filepath.Join(os.Getenv("GOPATH"), "src", path+"user")
 		os.MkdirAll(ud, 0755)
 		defer os.RemoveAll(ud)
-		os.WriteFile(filepath.Join(ud, "user.go"), []byte("package c05user\n\nimport _ \""+path+"\"\n"), 0644)
+		os.WriteFile(filepath.Join(ud, "user.go"), []byte(c05userSrc(path, files)), 0644)
 		if err := b.AddDir(path + "user"); err != nil {
 			return nil, err
+		}
+		if c05universeBetween {
+			u, err := b.FindTypes()
+			if err != nil {
+				return nil, err
+			}
+			if err := b.AddDirTo(path, &u); err != nil {
+				return nil, err
+			}
+			return u, nil
 		}
 	}
 	if err := b.AddDir(path); err != nil {
